@@ -897,6 +897,16 @@ func (g *Gen) execInstr(in ssa.Instruction) {
 		if len(g.leaves(pt)) > 0 {
 			g.store(g.heap, p, g.zero(pt))
 		}
+		if g.pc != nil {
+			// ghost fields of a new object start at their zero value
+			tn := g.typeName(pt)
+			for _, gf := range g.pc.GhostFields {
+				if gf.Struct == tn || lastPkgElem(gf.Struct) == tn {
+					gt := g.resolveType(g.baseEnv(), gf.Type)
+					g.store(g.heap, Ptr{Prefix: p.Prefix + ".ghost:" + gf.Name, Idx: p.Idx, T: gt}, g.zero(gt))
+				}
+			}
+		}
 		g.vals[x] = sv(x.Type(), r)
 	case *ssa.BinOp:
 		g.vals[x] = g.binop(x)
